@@ -108,7 +108,8 @@ func runBehaviour(t *testing.T, tr *vh.Trace, tid string, beh []Cmd) {
 					continue
 				}
 
-				at := now() + c.D*int(unit/time.Millisecond)
+				// D = 0: "requeue now" (a non-zero instant that is not after the moment the loop handles the release)
+				at := max(now()+c.D*int(unit/time.Millisecond), 1)
 				held[c.W].Requeue(start.Add(time.Duration(at) * time.Millisecond))
 				old[c.W] = held[c.W]
 				delete(held, c.W)
